@@ -148,6 +148,8 @@ class Tracer:
             self._install_placement()
         if "debump" in groups:
             self._install_debump()
+        if "hbsched" in groups:
+            self._install_hbsched()
 
     def _install_atoms(self):
         import pdb2pqr.aa as aa
@@ -550,6 +552,136 @@ class Tracer:
         self._patch(debump.Debump, "set_dihedral_angle", mk_set)
         self._patch(debump.Debump, "find_residue_conflicts", mk_conf)
         self._patch(presidue.Residue, "pick_dihedral_angle", mk_pick)
+
+    def _install_hbsched(self):
+        """the scheduler of HydrogenRoutines.optimize_hydrogens (spec HbondSched): the potential bonds the detection loop
+        stored, and every call the scheduler itself makes on an optimisation object (finalize / try_donor / try_acceptor /
+        try_both / complete) or on Residue.has_atom, with the objects whose residue.fixed truth value changed in the call.
+        Only calls whose caller frame is optimize_hydrogens are logged (nested try_* calls belong to the classes)."""
+        import pdb2pqr.hydrogens as hyd
+        import pdb2pqr.hydrogens.structures as hst
+        import pdb2pqr.residue as presidue
+        import pdb2pqr.aa as aa
+
+        tr = self
+        tr.hbsched_calls = []
+        cur = []
+
+        def caller_is_scheduler():
+            f = sys._getframe(2)
+            return f.f_code.co_name == "optimize_hydrogens" and f.f_globals.get("__name__", "") == "pdb2pqr.hydrogens"
+
+        def snapshot(call):
+            hr = call["hr"]
+            optlist = list(hr.optlist)
+            call["objs"] = optlist
+            idx = {id(o): k + 1 for k, o in enumerate(optlist)}
+            ridx = {id(o.residue): k + 1 for k, o in enumerate(optlist)}
+            call["ridx"] = ridx
+            aids = {}
+
+            def aid(a):
+                return aids.setdefault(id(a), len(aids) + 1)
+            dists = sorted(set(float(h.dist) for o in optlist for h in o.hbonds))
+            rank = {d: k + 1 for k, d in enumerate(dists)}
+            al = set(id(a) for a in hr.atomlist)
+            hb = []
+            for o in optlist:
+                row = []
+                for h in o.hbonds:
+                    a, b = h.atom1, h.atom2
+                    own = hr.resmap.get(b.residue) if id(b) in al else None
+                    row.append({"a": aid(a), "b": aid(b), "d": rank[float(h.dist)], "da": bool(a.hdonor), "aa": bool(a.hacceptor),
+                                "db": bool(b.hdonor), "ab": bool(b.hacceptor), "al": id(b) in al, "ob": idx.get(id(own), 0),
+                                "wa": isinstance(a.residue, aa.WAT), "wb": isinstance(b.residue, aa.WAT), "na": str(a.name), "nb": str(b.name),
+                                "own_a": ridx.get(id(a.residue), 0)})
+                hb.append(row)
+            call["aid"] = aid
+            # atoms that occur in a potential bond, in id order; their donor / acceptor flags are environment state
+            tracked = [None] * len(aids)
+            for o in optlist:
+                for h in o.hbonds:
+                    tracked[aids[id(h.atom1)] - 1] = h.atom1
+                    tracked[aids[id(h.atom2)] - 1] = h.atom2
+            call["tracked"] = tracked
+            call["fl"] = [(bool(a.hdonor), bool(a.hacceptor)) for a in tracked]
+            call["rec"].update(n=len(optlist), hb=hb, fixed0=[bool(o.residue.fixed) for o in optlist],
+                               fl0=[list(x) for x in call["fl"]], kinds=[type(o).__name__ for o in optlist])
+            call["fx"] = [bool(o.residue.fixed) for o in optlist]
+
+        def delta(call):
+            now = [bool(o.residue.fixed) for o in call["objs"]]
+            ch = [k + 1 for k, (x, y) in enumerate(zip(call["fx"], now)) if x != y]
+            call["fx"] = now
+            return ch
+
+        def fdelta(call):
+            now = [(bool(a.hdonor), bool(a.hacceptor)) for a in call["tracked"]]
+            ch = [[k + 1, y[0], y[1]] for k, (x, y) in enumerate(zip(call["fl"], now)) if x != y]
+            call["fl"] = now
+            return ch
+
+        def mk_opt(orig):
+            def optimize_hydrogens(hr, *xa, **xk):
+                call = {"hr": hr, "rec": {"stage": tr.cur_stage, "ev": []}}
+                cur.append(call)
+                try:
+                    return orig(hr, *xa, **xk)
+                finally:
+                    cur.pop()
+                    if "objs" not in call:
+                        try:
+                            snapshot(call)
+                        except Exception as e:  # noqa
+                            call["rec"]["error"] = repr(e)[:100]
+                    tr.hbsched_calls.append(call["rec"])
+            return optimize_hydrogens
+
+        def mk_meth(kind):
+            def make(orig):
+                def meth(obj, *args, **xk):
+                    if not cur or not caller_is_scheduler():
+                        return orig(obj, *args, **xk)
+                    call = cur[-1]
+                    if "objs" not in call:
+                        snapshot(call)
+                    aid = call["aid"]
+                    ev = {"e": kind, "o": next((k + 1 for k, o in enumerate(call["objs"]) if o is obj), 0), "a": 0, "b": 0, "p": 0,
+                          "r": 0, "n": "", "fx": [], "fl": []}
+                    if kind in ("don", "acc", "both") and len(args) >= 2:
+                        ev["a"], ev["b"] = aid(args[0]), aid(args[1])
+                    if kind == "both" and len(args) >= 3:
+                        ev["p"] = next((k + 1 for k, o in enumerate(call["objs"]) if o is args[2]), 0)
+                    try:
+                        r = orig(obj, *args, **xk)
+                        if kind == "both":
+                            ev["r"] = 1 if r else 0
+                        return r
+                    finally:
+                        ev["fx"] = delta(call)
+                        ev["fl"] = fdelta(call)
+                        call["rec"]["ev"].append(ev)
+                return meth
+            return make
+
+        def mk_has(orig):
+            def has_atom(res, name, *xa, **xk):
+                r = orig(res, name, *xa, **xk)
+                if cur and caller_is_scheduler():
+                    call = cur[-1]
+                    if "objs" not in call:
+                        snapshot(call)
+                    call["rec"]["ev"].append({"e": "has", "o": call["ridx"].get(id(res), 0), "a": 0, "b": 0, "p": 0, "r": bool(r),
+                                              "n": str(name), "fx": [], "fl": []})
+                return r
+            return has_atom
+
+        self._patch(hyd.HydrogenRoutines, "optimize_hydrogens", mk_opt)
+        for klass in (hst.Flip, hst.Generic, hst.Alcoholic, hst.Water, hst.Carboxylic):
+            for name, kind in (("finalize", "fin"), ("try_donor", "don"), ("try_acceptor", "acc"), ("try_both", "both"), ("complete", "cmp")):
+                if name in klass.__dict__:
+                    self._patch(klass, name, mk_meth(kind))
+        self._patch(presidue.Residue, "has_atom", mk_has)
 
     def _install_log(self):
         import logging
